@@ -158,3 +158,77 @@ def run_object_case(oi, si):
         if got != want:
             return False
     return True
+
+
+# ---- thorough: every class of both versions, every path of an enriched instance plus systematic near misses
+def _all_class_tables():
+    from props import h_C01, h_C03
+    out = []
+    for ver, cat, name, cls, kw in h_C03.CLASSES:
+        try:
+            doc = h_C01.enrich(ver, cat, name, cls, h_C03.base_doc(cls, kw), 1)
+            o = stix2.parse(doc, version=ver) if cat == "objects" else stix2.parse_observable(doc, version=ver)
+        except Exception:  # noqa: BLE001
+            continue
+        j = json.loads(o.serialize())
+        paths = sorted(set(enum_paths(j)))
+        near = ["nope", "zz"]
+        for p in paths:
+            near.append(p + ".nope")
+            if isinstance(_get(j, p), list):
+                near.append("%s.[%d]" % (p, len(_get(j, p))))
+            elif not isinstance(_get(j, p), dict):
+                near.append(p + ".[0]")
+        out.append((o, set(paths), paths + sorted(set(near) - set(paths))))
+    return out
+
+
+def _get(j, path):
+    cur = j
+    for step in path.split("."):
+        cur = cur[int(step[1:-1])] if step.startswith("[") else cur[step]
+    return cur
+
+
+_ALL = []
+
+
+def all_tables():
+    if not _ALL:
+        _ALL.extend(_all_class_tables())
+    return _ALL
+
+
+NALL = 59
+NPARTS = 8
+from engine.hlib import Part  # noqa: E402
+
+PARTNO = Part.index
+
+
+def sel_all_classes(ci: int) -> bool:
+    """
+    pre: 0 <= ci < NALL and ci % NPARTS == PARTNO
+    post: _
+    """
+    ci = pick(ci, NALL)
+    with Native():
+        ok = run_all_class_case(ci)
+    V.reached()
+    return ok
+
+
+def run_all_class_case(ci):
+    tables = all_tables()
+    if ci >= len(tables):
+        return True
+    o, paths, table = tables[ci]
+    for sel in table:
+        try:
+            mu.validate(o, [sel])
+            got = True
+        except InvalidSelectorError:
+            got = False
+        if got != (sel in paths):
+            return False
+    return True
